@@ -734,7 +734,11 @@ func (p *poolRun) doMine(o *PoolOp) {
 			p.out.Probe("block_from_pool_listing", 1)
 		}
 	case "other":
-		ins := p.pickCoins(r, 1, false, r.Chance(0.6))
+		// a transaction the pool has not seen; its 1-3 inputs may each be spent by a different pooled transaction
+		ins := p.pickCoins(r, 1+r.Pick(50, 30, 20), false, r.Chance(0.6))
+		if len(ins) > 1 {
+			p.out.Probe("block_with_tx_conflicting_on_several_inputs", 1)
+		}
 		if len(ins) > 0 {
 			t := p.m.MakeTx(p.model.Height+1, ins, 1+r.Intn(2), uint64(r.Range(100, 2000)), -1, ledger.COk)
 			p.made[t.ID()] = t
